@@ -44,6 +44,35 @@ func execC15(t *testing.T, p Plan, src kernel.Source) Result {
 		spec := p.Conns[0]
 		victim := w.Connect(spec.Port)
 		w.Settle()
+		nv1 := len(d.L1.Conns)
+		nv2 := 0
+		if d.L2 != nil {
+			nv2 = len(d.L2.Conns)
+		}
+		// bystander variant: while the victim is connected and has not sent anything yet,
+		// another client connects to the same port and is served. What is held for the
+		// victim is the victim's own, and what is held for the bystander stays
+		var by *kernel.ClientConn
+		byCheck := func(when string, key string) bool {
+			val := []byte("bystander-" + key)
+			w.Send(by, wire.EncodeText(wire.Op{Kind: "set", Key: key, Data: val, Flags: 9}))
+			w.Send(by, wire.EncodeText(wire.Op{Kind: "get", Keys: []string{key}}))
+			want := fmt.Sprintf("STORED\r\nVALUE %s 9 %d\r\n%s\r\nEND\r\n", key, len(val), val)
+			got := string(by.Unread())
+			by.Consume(len(got))
+			if got != want {
+				viol("bystander", p.Cfg.L1+"/"+spec.Proto, "a second client connected %s got %q for set %s / get %s", when, trunc([]byte(got)), key, key)
+				return false
+			}
+			return true
+		}
+		if p.X["bystander"] != 0 {
+			by = w.Connect(spec.Port)
+			w.Settle()
+			if !byCheck("while the first client was idle", "by1") {
+				return
+			}
+		}
 		var data []byte
 		for _, op := range p.Steps[0].Pipe {
 			data = append(data, encode(spec.Proto, op)...)
@@ -83,17 +112,61 @@ func execC15(t *testing.T, p Plan, src kernel.Source) Result {
 			return
 		}
 		// 2. backend connections dialled for this client are closed
-		for _, b := range d.L1.Conns[nb1:] {
+		for _, b := range d.L1.Conns[nb1:nv1] {
 			if !b.C.ClosedByRend() {
 				viol("backend_conn_open", class+"/l1", "%s: the L1 backend connection %s opened for the client is still open", where, b.C.Name)
 				return
 			}
 		}
 		if d.L2 != nil {
-			for _, b := range d.L2.Conns[nb2:] {
+			for _, b := range d.L2.Conns[nb2:nv2] {
 				if !b.C.ClosedByRend() {
 					viol("backend_conn_open", class+"/l2", "%s: the L2 backend connection %s opened for the client is still open", where, b.C.Name)
 					return
+				}
+			}
+		}
+		if by != nil {
+			// the bystander lost nothing: its backend connections are open, it is still served,
+			// and when it leaves in turn everything of its own is released as well
+			for _, b := range d.L1.Conns[nv1:] {
+				if b.C.ClosedByRend() {
+					viol("bystander", class+"/l1", "%s: the L1 backend connection %s of another, still connected client was closed", where, b.C.Name)
+					return
+				}
+			}
+			if d.L2 != nil {
+				for _, b := range d.L2.Conns[nv2:] {
+					if b.C.ClosedByRend() {
+						viol("bystander", class+"/l2", "%s: the L2 backend connection %s of another, still connected client was closed", where, b.C.Name)
+						return
+					}
+				}
+			}
+			if by.C.ClosedByRend() {
+				viol("bystander", class, "%s: the connection of another client was closed", where)
+				return
+			}
+			if !byCheck("after the first client left ("+where+")", "by2") {
+				return
+			}
+			by.C.PeerClose(simnet.PeerClosed)
+			if !w.Settle() {
+				viol("no_quiescence", class, "no quiescence after the second client closed")
+				return
+			}
+			for _, b := range d.L1.Conns[nv1:] {
+				if !b.C.ClosedByRend() {
+					viol("backend_conn_open", class+"/l1", "%s; then the second client left: its L1 backend connection %s is still open", where, b.C.Name)
+					return
+				}
+			}
+			if d.L2 != nil {
+				for _, b := range d.L2.Conns[nv2:] {
+					if !b.C.ClosedByRend() {
+						viol("backend_conn_open", class+"/l2", "%s; then the second client left: its L2 backend connection %s is still open", where, b.C.Name)
+						return
+					}
 				}
 			}
 		}
@@ -258,6 +331,13 @@ func enumC15(tier string) []Plan {
 								out = append(out, r)
 							}
 						}
+						// ... and with a second client connected to the same port meanwhile
+						if cut == 0 || cut == len(data) || (tier == "thorough" && cut%5 == 0) || cut%23 == 0 {
+							q := p.Clone()
+							q.Seed += 1 << 34
+							q.X["bystander"] = 1
+							out = append(out, q)
+						}
 					}
 				}
 			}
@@ -285,13 +365,13 @@ func genC15(seed uint64, tier string) Plan {
 		n += len(encode(proto, op))
 	}
 	return Plan{Prop: "C15", Seed: seed, Cfg: cfg, Conns: []ConnSpec{{Port: port, Proto: proto}}, Steps: []Step{{Pipe: ops}},
-		X: map[string]int64{"cut": int64(g.n(n + 1)), "close_first": int64(g.n(2)), "silent": int64(g.n(2))}}
+		X: map[string]int64{"cut": int64(g.n(n + 1)), "close_first": int64(g.n(2)), "silent": int64(g.n(2)), "bystander": int64(g.n(2))}}
 }
 
 func init() {
 	register(&Prop{
 		ID: "C15", Gen: genC15, Exec: execC15, Enumerate: enumC15, Level: "fault_enumeration",
-		Rule:       "fault = the client closes its connection after exactly n bytes of its request stream. Enumerated part: representative streams (each command, a large set, pipelines, quiet batches, quiet sets, quit alone / after a miss / after a quiet set, quiet quit; 12 text + 17 binary) x 12 deployments (L1-only / L1L2 / batch port, direct or chunked per-connection handlers, with and without the locking wrapper) x every prefix length n = 0..len (quick: every n for a rotating quarter of the pairs, stride 7 plus both ends for the rest; thorough: every n), each cut also in the variant where the client sends and closes in the same instant so that rend's replies meet a dead socket (EPIPE, and at request ends also the silent write mode). Seeded part: random pipelines with a random cut. After quiescence: rend closed the client socket, every backend connection dialled for that client is closed, the goroutine count is back to the pre-connection baseline, every key lock acquired was released, and a fresh client is served on the same keys. Every case is non-trivial (a fault is injected in each); distinct = distinct plan hash",
+		Rule:       "fault = the client closes its connection after exactly n bytes of its request stream. Enumerated part: representative streams (each command, a large set, pipelines, quiet batches, quiet sets, quit alone / after a miss / after a quiet set, quiet quit; 12 text + 17 binary) x 12 deployments (L1-only / L1L2 / batch port, direct or chunked per-connection handlers, with and without the locking wrapper) x every prefix length n = 0..len (quick: every n for a rotating quarter of the pairs, stride 7 plus both ends for the rest; thorough: every n), each cut also in the variant where the client sends and closes in the same instant so that rend's replies meet a dead socket (EPIPE, and at request ends also the silent write mode). Selected cuts (both ends, every 23rd / thorough every 5th byte) also with a second client that connected to the same port while the first was idle: it must keep its backend connections, still be served after the first client left, and release its own when it leaves in turn. Seeded part: random pipelines with a random cut, half of them with the second client. After quiescence: rend closed the client socket, every backend connection dialled for that client is closed, the goroutine count is back to the pre-connection baseline, every key lock acquired was released, and a fresh client is served on the same keys. Every case is non-trivial (a fault is injected in each); distinct = distinct plan hash",
 		Real:       append(append([]string{}, realFullStack...), "handlers/memcached/chunked", "server/utils.go abort"),
 		Stub:       stubFullStack,
 		FaultKinds: []string{"client_close"},
